@@ -150,17 +150,25 @@ def run_case(case):
     # ---------------------------------------------------------------- (a) closed form, cell by cell
     res = float(zm * rng.uniform(0.125, 2.0))
     ncell = int(rng.integers(12, 40))
-    wdkind = str(rng.choice(["none", "cardinal", "arbitrary", "near_cardinal"]))
+    wdkind = str(rng.choice(["none", "cardinal", "arbitrary", "near_cardinal", "integer_typed"]))
     wd = None if wdkind == "none" else (float(rng.choice([0, 90, 180, 270])) if wdkind == "cardinal" else float(rng.uniform(0, 360)))
     if wdkind == "near_cardinal":
         # a hair beside a multiple of 90 degrees (what rad2deg(arctan2(-u, -v)) returns for a wind that is cardinal up to round-off)
         c90 = float(rng.choice([90.0, 180.0, 270.0, 360.0]))
         wd = float(rng.choice([np.nextafter(c90, 0.0), c90 - 1e-12, c90 - 1e-10, (c90 % 360.0) + 1e-12, (c90 % 360.0) + 1e-9]))
+    wd_arg = wd
+    if wdkind == "integer_typed":
+        # whole degrees handed over as Python int / signed / unsigned numpy integers (a logger's "unsigned short" column)
+        wd = float(rng.integers(0, 360))
+        # (numpy promotes 8- and 16-bit integers to half / single precision in deg2rad: those types are left out, their storage
+        # rounding is not what the clause is about)
+        wd_arg = [int, np.int64, np.int32, np.uint32, np.uint64][int(rng.integers(5))](wd)
+        wd = float(wd_arg)
     half = ncell * res / 2
     mxy = (float(rng.uniform(-0.3, 0.3) * half), float(rng.uniform(-0.3, 0.3) * half))
     dom = (-half, half, -half * 0.8, half * 0.8)
     try:
-        gx, gy, ffm = call(zm, z0, ws, ustar, L, sigma_v, dom, res, mxy, wd=wd)
+        gx, gy, ffm = call(zm, z0, ws, ustar, L, sigma_v, dom, res, mxy, wd=wd_arg)
     except Warning as w:
         viol.append({"what": "warning_on_consistent_input", "msg": str(w), "params": (zm, z0, ws, ustar, L, sigma_v)})
         return {"evals": 1, "nontrivial": False, "violations": viol}
